@@ -22,7 +22,7 @@ RULE = ("Hypothesis byte-backed generator: one command with 1-4 variables, the B
         "is rejected; distinct by case hash.")
 ASSUMPTIONS = ["argument bytes 0x01-0xFF without LF/CR (a NUL ends the argument text, DESIGN 4.3)",
                "after a rejected argument the bytes inside [0,data_size) are unspecified (the decoder works in place); only bytes at or beyond data_size are asserted untouched",
-               "read-only variables are C08's",
+               "the target is writable; read-only buffer variables appear only in front of it (parsed, never stored - that they keep their bytes is C08's)",
                "the command capacity is large enough for the line (C06 covers the capacity boundary)"]
 TECHNIQUE = "Hypothesis property-based testing + enumerated boundary sweep on an ASan/UBSan build; oracle = independent hex / quoted-string decoders"
 LEVEL_TEXT = ("Generated-input search with constructed boundary cases (decoded length data_size-1, data_size, data_size+1 reached through plain and "
@@ -112,7 +112,7 @@ def valid_text(d, v):
         return (b"0x%X" % val) if v["type"] == HEX else b"%d" % val
     if v["type"] == BHEX:
         return b"".join(b"%02X" % d.below(256) for _ in range(d.rng(1, v["size"])))
-    return G.enc_string(bytes(d.pick(b"abcXYZ01 ,") for _ in range(d.rng(0, v["size"] - 1))))
+    return G.enc_string(bytes(d.pick(b"abcXYZ01 ,\\\"\\\\") for _ in range(d.rng(0, v["size"] - 1))))
 
 
 def build_case(vs, pos, parts, h, need_all, cls, txt):
@@ -183,7 +183,8 @@ def gen(d, tier):
     for _ in range(pos):
         vt = d.pick([INT, UINT, HEX, BHEX, STR])
         vsz = d.pick([1, 2, 4]) if vt in (INT, UINT, HEX) else d.rng(1, 6)
-        vs.append(S.mk_var(vt, vsz, d.pick([RW, WO]), d.bytes(vsz), wcb=d.below(2)))
+        acc = d.pick([RW, WO, S.RO]) if vt in (BHEX, STR) else d.pick([RW, WO])    # read-only buffers are parsed but not stored
+        vs.append(S.mk_var(vt, vsz, acc, d.bytes(vsz), wcb=d.below(2)))
     vs.append(target)
     if len(vs) < 4 and d.unlikely(1, 3):
         vs.append(S.mk_var(d.pick([INT, BHEX, STR]), d.pick([1, 2, 4]), RW, d.bytes(4), wcb=d.below(2)))
@@ -231,7 +232,8 @@ def judge(case, t):
             if len(val) > lim or (v["type"] == BHEX and len(val) == 0):
                 fail_at = k
                 break
-            accepted[k] = val
+            if v["access"] != S.RO:
+                accepted[k] = val
         k += 1
         if not (comma and k < len(c["vars"])):
             break
